@@ -74,8 +74,36 @@ func (s SpecSlot) LenSet() LenSet {
 	return LenSet{Iv: [][2]int{{s.Min, s.Max}}}
 }
 
+// canonicalItemOrder: within one element the identifier comes first, then the length, then the
+// value octets (TS 24.007 11.2.1.1); each of T and L at most once.
+func canonicalItemOrder(items []WireItem) bool {
+	stage := 0 // 0: nothing yet, 1: T seen, 2: L seen, 3: value octets
+	for _, it := range items {
+		switch it.Ext {
+		case "iei":
+			if stage != 0 {
+				return false
+			}
+			stage = 1
+		case "len8", "len16":
+			if stage >= 2 {
+				return false
+			}
+			stage = 2
+		default:
+			if it.Kind == "V" {
+				stage = 3
+			}
+		}
+	}
+	return true
+}
+
 // slotFormat derives the wire format of a decoder slot.
 func decFormat(sl *DecSlot, optional bool) string {
+	if !canonicalItemOrder(sl.Items) {
+		return "items out of order (" + itemsSig(sl.Items) + ")"
+	}
 	hasL8, hasL16, hasV := false, false, false
 	for _, it := range sl.Items {
 		switch it.Ext {
@@ -109,6 +137,9 @@ func decFormat(sl *DecSlot, optional bool) string {
 }
 
 func encFormat(sl *EncSlot) string {
+	if !canonicalItemOrder(sl.Items) {
+		return "items out of order (" + itemsSig(sl.Items) + ")"
+	}
 	hasT, hasL8, hasL16, hasV := false, false, false, false
 	for _, it := range sl.Items {
 		switch it.Ext {
